@@ -105,6 +105,14 @@ fn run_thread(t: u8, steps: Vec<LStep>, l: Locks, joins: &mut Vec<loom::thread::
     let call = |op: &Op| rt::log_call(t, 0, op);
     let ret = |op: &Op, r: Res, outcome: bool| rt::log_ret(t, 0, op, r, outcome);
     for s in steps {
+        // an acquiring step is skipped when an earlier poll already acquired (the thread holds the guard)
+        let acquiring = matches!(
+            s,
+            LStep::Lock | LStep::LockAsync | LStep::TryLock | LStep::Read | LStep::ReadAsync | LStep::TryRead | LStep::Write | LStep::WriteAsync | LStep::TryWrite
+        );
+        if acquiring && held.is_some() {
+            continue;
+        }
         match s {
             LStep::Lock => {
                 call(&Op::Lock);
